@@ -1,10 +1,10 @@
-\* C24 leg A thorough (1): 4 requests, max 1..3, all interleavings, safety + liveness;
+\* C24 leg A thorough (1): 4 requests (request limits are explored by the quick config with liveness and by thorough (2)), max 1..3, all interleavings, safety + liveness;
 \* driver scripts: <= 4 requests, <= 6 ops, max 1 and 2 (807 scripts)
 SPECIFICATION Spec
 CONSTANTS NReq = 4
           MaxSet = {1, 2, 3}
           DoneOnFailedStart = FALSE
-          WithLimits = TRUE
+          WithLimits = FALSE
           CaseLenReject = 5
           CaseLen = 6
           CaseReq = 4
